@@ -89,18 +89,16 @@ def Cfg.original : Cfg := {}
 /-- **the code as it is now.** Repaired (flag off), with the commit in /repo:
 `descentSiblings` baff053 · `innerEmptySlice` 0e0caaf · `locNegEnd`, `locEmptyArray`, `locateRoot` fa2ed77 ·
 `walkDescentNoSelf` 5d79291 · `nodesUnionNil`, `nodesFilterRev`, `firstNodeLast`, `nodesFilterNull` 360668e ·
-`hasTypedMap`, `hasTypedDescent` 21977aa (1af5385, FirstFound on Indexed, had no flag).
-Still present: `locStartClamp` (pinned by the suite), `typedMapWild`, `typedObjFilter`, `firstTypedSlice`,
-`firstTypedWildOne`, `walkTypedArray`. -/
+`hasTypedMap`, `hasTypedDescent` 21977aa (1af5385, FirstFound on Indexed, had no flag) ·
+`firstTypedWildOne` 6d09ec9 · `walkTypedArray` 6f19325 · `typedMapWild` 927d89c · `typedObjFilter` c654348.
+Still present, both pinned by the suite: `locStartClamp` (TestExprLocateAny: `a[5:0:-1]`), `firstTypedSlice`
+(TestExprFirst/TestExprHas: `$[1:1][0]` on typed data). `Gen.JpathFacts` reads the same flags off the source;
+`C11.pinned_is_source` ties the two. -/
 def Cfg.pinned : Cfg :=
   { innerEmptySlice := false, descentSiblings := false, locNegEnd := false, locEmptyArray := false,
     locateRoot := false, walkDescentNoSelf := false, nodesUnionNil := false, nodesFilterRev := false,
-    firstNodeLast := false, nodesFilterNull := false, hasTypedMap := false, hasTypedDescent := false }
-def Cfg.fixed : Cfg :=
-  { innerEmptySlice := false, descentSiblings := false, locNegEnd := false, locStartClamp := false, locEmptyArray := false, locateRoot := false, walkDescentNoSelf := false,
-    nodesUnionNil := false, nodesFilterRev := false, firstNodeLast := false, nodesFilterNull := false,
-    typedMapWild := false, typedObjFilter := false, firstTypedSlice := false, firstTypedWildOne := false,
-    hasTypedMap := false, hasTypedDescent := false, walkTypedArray := false }
+    firstNodeLast := false, nodesFilterNull := false, hasTypedMap := false, hasTypedDescent := false,
+    firstTypedWildOne := false, walkTypedArray := false, typedMapWild := false, typedObjFilter := false }
 
 /-- how arrays are held -/
 inductive AK where
